@@ -313,6 +313,43 @@ def history(binpath, seed, sh):
     return res
 
 
+def concurrent_neighbour(binpath, seed, sh):
+    """the verdict and summary for one input are the same whether the call runs alone or while ANOTHER verification (other
+    layout, other keys in other forms, failing or succeeding, with a sleeping inspection) is under way on a second thread
+    of the process"""
+    rng = common.rng_for(seed, PROP, 9500 + sh)
+    W = scen.World(binpath)
+    res = common.Result()
+    reqs = []
+    subject = pipeline.make_node(rng, W, rng.choice([0, 1, 2]), ["ed0"], nsteps=2, delegate_prob=0.7)
+    other = pipeline.make_node(rng, W, rng.choice([0, 1]), ["ed0"], nsteps=2, delegate_prob=0.5)
+    other["layout"]["inspect"] = [scen.mk_inspection("wait", ["sh", "-c", "sleep 1"], [["ALLOW", "*"]], [["ALLOW", "*"]])]
+    for nd in (subject, other):
+        pipeline.collect_requests(nd, reqs)
+    wires = scen.sign_all(binpath, reqs, nproc=1)
+    keys = [[W.kid("ed0"), W.pub("ed0")]]
+    sf = pipeline.tree_files(W, subject, wires)
+    of = pipeline.tree_files(W, other, wires)
+    variants = [("subject_ok", sf)]
+    inner = sorted(k for k in sf if "/" in k and k.endswith(".link"))
+    if inner:
+        f2 = dict(sf)
+        del f2[inner[0]]
+        variants.append(("subject_fails_inside_a_sub_layout", f2))
+    for name, files in variants:
+        alone = scen.verify_case(wires[subject["req"]], keys, files, reps=3, meta={"kind": "concurrent_neighbour", "nlinks": 0})
+        for bg_kind in ("succeeding", "failing"):
+            withbg = copy.deepcopy(alone)
+            withbg["background"] = {"layout": scen.dumps(wires[other["req"]]), "files": of if bg_kind == "succeeding" else {}}
+            o = common.run_batch(binpath, [alone, withbg, copy.deepcopy(alone)])
+            d = judge_group(alone, o, res)
+            if d is not None:
+                bg = o[1].get("background", {})
+                res.note(["concurrent_neighbour", name, bg_kind, alone["layout"][:60]], True,
+                         cls=[f"concurrent_neighbour:{name}:outcomes:{len(d)}", "concurrent_neighbour:background_" + ("ok" if bg.get("v") == "ok" else "err")], n=9)
+    return res
+
+
 def key_forms_history(binpath, seed):
     """two independent, valid chains that authorise the same key material described in its two forms (with / without the
     hash-algorithm list: two ids); each chain is verified in two executor processes, once before and once after the
@@ -617,6 +654,8 @@ def short_id_collision(binpath, seed, sh, reps):
 def main(ctx):
     res = common.Result()
     res.merge(key_forms_history(ctx.bin, ctx.seed))
+    for p in common.pmap(concurrent_neighbour, [(ctx.bin, ctx.seed, s) for s in range(4 if not ctx.thorough else common.NPROC)]):
+        res.merge(p)
     for p in common.pmap(history, [(ctx.bin, ctx.seed, s) for s in range(4 if not ctx.thorough else common.NPROC)]):
         res.merge(p)
     for p in common.pmap(short_id_collision, [(ctx.bin, ctx.seed, s, 64 if not ctx.thorough else 512) for s in range(2 if not ctx.thorough else 8)]):
@@ -647,7 +686,7 @@ def main(ctx):
              "non-trivial = the surplus links differ; distinct by (layout, directory); evaluations = verifications",
         assumptions=["fresh HashMap instances get fresh SipHash keys (std RandomState), fresh processes fresh base keys"],
         required=["kind:summary_only", "kind:disallow", "kind:match_next", "kind:delegated_surplus", "kind:require",
-                  "kind:multi_party_nested_dissent", "kind:same_key_two_descriptions", "kind:cosigned_by_outsider", "history:delegated:outcomes:1", "history:accept", "key_forms_history:rsa:outcomes:1", "key_forms_history:ed:outcomes:1", "key_forms_history:ec:outcomes:1", "key_forms_history:accept", "history:failing_verifications_in_between",
+                  "kind:multi_party_nested_dissent", "kind:same_key_two_descriptions", "kind:cosigned_by_outsider", "history:delegated:outcomes:1", "history:accept", "concurrent_neighbour:subject_ok:outcomes:1", "concurrent_neighbour:background_ok", "concurrent_neighbour:background_err", "key_forms_history:rsa:outcomes:1", "key_forms_history:ed:outcomes:1", "key_forms_history:ec:outcomes:1", "key_forms_history:accept", "history:failing_verifications_in_between",
                   "iteration_order_varied", "accept_seen", "kind:enumeration_order", "kind:sublayout_inspections_share_workdir", "kind:keyid_capitals:layout_signature",
                   "kind:keyid_capitals:key_table_member", "kind:keyid_capitals:control", "enumeration:symlink_listed_first",
                   "enumeration:symlink_listed_second"],
